@@ -88,6 +88,7 @@ def step (st : St) (ws : List String) (impl : String) : St × Ans :=
       | some r, some t0 => ({ t0 := t0, retain := configRetain r, started := true }, { m := "ok" })
       | _, _ => (st, bad)
   | ["sleep", _] => (st, { m := "ok" })
+  | ["plant"] => (st, { m := "ok" })   -- a zero-length memtable file appears: no effect on what the store holds
   | ["incarnations", _, _] =>
       -- ids are store keys: successive incarnations of the broker never create the same id (the per
       -- process nonce of `NewID`), else a later store overwrites an acknowledged message
@@ -112,12 +113,15 @@ def step (st : St) (ws : List String) (impl : String) : St × Ans :=
                { m := impl, s := s!"an outcome a {how} run can have: the store opens", f := reopenFlag })
             else
             let all := acked ++ inflight ++ errs ++ panics
-            let shape := all.eraseDups.length == all.length && all.all (· < n) && errs.isEmpty &&
+            let closeAt := (_k.toNat?).getD 0
+            let shape := all.eraseDups.length == all.length && all.all (· < n) &&
+              (if how == "lateclose" then errs.all (· ≥ closeAt) else errs.isEmpty) &&
               acked.all (fun i => isOk (ents.getD i (.err ""))) &&
               panics.all (fun i => (ents.getD i (.err "")).isPanic)
-            let complete := inflight.isEmpty && (acked ++ panics).length == n
+            let complete := inflight.isEmpty && (acked ++ panics ++ (if how == "lateclose" then errs else [])).length == n
             let okHow :=
               if how == "clean" then exit == "0" && opn == "ok" && closed == "yes" && complete
+              else if how == "lateclose" then exit == "0" && opn == "ok" && closed == "yes" && complete
               else if how == "kill" then exit == "killed" && opn == "ok" && closed == "no"
               else if how == "killclose" then exit == "killed" && opn == "ok" && complete && (closed == "yes" || closed == "no")
               else if how == "killopen" then exit == "killed" && closed == "no" && (opn == "ok" || all.isEmpty)
